@@ -76,6 +76,13 @@ def cases(tier, seed):
             for mode in ("lr", "glr"):
                 out.append(_case(g, mode, "ws", 4, K))
     out.append({"name": "named-matches", "params": {"kind": "named", "N": N}, "budget_s": 600})
+    # ignore_case: a terminal's value is still the text of the input
+    for mode in ("lr", "glr"):
+        c = _case(corpus.shape("leftrec"), mode, "ws", 3, K)
+        c["name"] += "|ignore_case"
+        c["params"]["icase"] = True
+        c["params"]["alphabet"] = "aAbB x"
+        out.append(c)
     tw = _case(corpus.shape("nullable-mid"), "lr", "ws", 3, K)
     tw["name"] = "twin:" + tw["name"]
     tw["params"]["twin"] = True
@@ -132,7 +139,8 @@ def build(params, symbolic):
         text = text + LAYOUT_STR + ("" if "terminals" in text else "terminals\n") + LAYOUT_STR_T
     elif lay == "layout-cmt":
         text = text + LAYOUT_CMT + ("" if "terminals" in text else "terminals\n") + LAYOUT_CMT_T
-    grammar = Grammar.from_string(text)
+    gkw = {"ignore_case": True} if params.get("icase") else {}
+    grammar = Grammar.from_string(text, **gkw)
     pats = []
     if lay == "layout-cmt" and symbolic:
         pats = pyre.install(grammar, "a/ \n", 4)
@@ -150,7 +158,7 @@ def build(params, symbolic):
             dkw = {"debug": True} if params.get("debug") else {}
             if mode == "lr":
                 parser = Parser(grammar, build_tree=True, **dkw)
-                g2 = Grammar.from_string(text)
+                g2 = Grammar.from_string(text, **gkw)
                 if lay == "layout-cmt" and symbolic:
                     pyre.install(g2)
                 actions = {}
@@ -216,8 +224,14 @@ def build(params, symbolic):
             return "input after the last terminal (%d) is not layout" % pos, None
         return None, order
 
+    alpha = params.get("alphabet")
+
     def h(w: str):
         n = length_of(w, N)
+        if alpha:
+            for i in range(n):
+                if w[i] not in alpha:
+                    raise Pre()  # case folding of symbolic characters is expensive: a stated small alphabet
         if lay == "layout-cmt":
             for i in range(n):
                 if w[i] > "\x7f":
